@@ -37,11 +37,12 @@ CLAIMS = {
          "item(all(to_array(all(nulltest(sel(ds, setting)))))) for a Dataset and item(all(nulltest(sel))) for a DataArray, with nulltest = isnull or not-isfinite as "
          "requested; an unknown method raises ValueError) and parse_into_cases (every returned element is {**case, **zip(keys, setting)} for a requested case and "
          "combination at which is_case_missing holds (or no dataset was given), and every such requested location is returned: loop invariants over the case list and "
-         "the product) and find_missing_cases (its nested generator evaluated eagerly: the report is exactly the set of product elements of the coordinate values at "
-         "which is_case_missing holds, with the requested method). BOUNDED: replay/C13.py against an independent numpy oracle, including the choice of non-ignored "
-         "dimensions, grid order, duplicates and the find -> harvest -> find loop (quick tier).",
-         "assumed: xarray's sel / isnull / all / to_array / item semantics (named contracts), numpy.isfinite; selection of the non-ignored dimensions, result order and "
-         "duplicate-freeness are bounded only; generator evaluated eagerly"),
+         "the product) and find_missing_cases, stated over its arguments and result only (the returned names are exactly the dataset's dimensions that are not ignored; "
+         "the report is exactly the set of elements of the product of their coordinate values at which is_case_missing holds, with the requested method; the product "
+         "is a one-shot iterator, the nested generator is evaluated eagerly). BOUNDED: replay/C13.py against an independent numpy oracle, including grid order, "
+         "duplicates, transposed and partial-dimension variables, falsy coordinates, infinities only, and the find -> harvest -> find loop (quick tier).",
+         "assumed: xarray's sel / isnull / all / to_array / item semantics (named contracts), numpy.isfinite; result order and duplicate-freeness are bounded only; "
+         "generator evaluated eagerly"),
  "C14": ("Discharged on the real auto_add_extension (string contract: a name containing a known extension is kept, otherwise the engine's extension is appended; the "
          "result always has one), save_ds (writes exactly one file, the one named auto_add_extension(name, engine), holding the dataset; for netCDF engines every "
          "None/True/False attribute becomes its string and nothing else changes, joblib/zarr keep attributes), load_ds (reads only that same name and returns what is "
@@ -57,7 +58,9 @@ CLAIMS = {
          "description's constants, resources never recorded), reap_runner (passes the Runner's stored fn_args/var_names/var_dims/var_coords/constants/attrs, parse=False, "
          "records last_ds/last_df), reap_harvest (add_ds with the reaped dataset and the sync/overwrite flags, after which the crop is deleted), reap_samples (add_df, "
          "last_df), reap (dispatch on the farmer kind), Runner.run_combos/run_cases, Harvester.harvest_*/add_ds, Sampler.sample_combos/add_df: both routes reach the same "
-         "builder with the same description, and (C04) the same results. BOUNDED: replay/C06.py compares crop and direct runs on the real code for the three farmer kinds, "
+         "builder with the same description, and (C04) the same results; save_info (the farmer is stored as it is NOW, pickled without its function), load_info / "
+         "_sync_info_from_disk (the settings read are those on disk now), Crop.grow and grow (the given or the sown function on the batch's cases, result written in "
+         "order) and the frame of reap_combos_to_ds (the runner's constants are not changed in place) carry the history clauses. BOUNDED: replay/C06.py compares crop and direct runs on the real code for the three farmer kinds, "
          "overwrite policies, shuffle, both engines and with the crop and its farmer reloaded by name (quick tier).",
          "assumed: pickle round trip of the farmer description (copy.deepcopy + cloudpickle) and re-attachment of the function on reload (Crop.__init__, save_info with a "
          "farmer, _sync_info_from_disk/load_function have only caller-side summaries: the reload clause is decided by the bounded replay only); xarray/pandas builders; "
@@ -100,7 +103,9 @@ CLAIMS = {
          "i grows batch i) and otherwise exactly Crop.missing_results() (C08's contract: the ascending ids without a result file; header range 1-len(ids), task i grows "
          "the i-th listed id); single mode embeds the given ids or the expression crop.missing_results() and has no array header; these are string facts about the "
          "template actually chosen (z3 sequence theory on the real constants) plus the values put into the format fields. Ground obligations: every instance of the nine "
-         "script templates compiles as a Python program. BOUNDED: replay/C16.py executes every generated script with bash and stub scheduler variables, once per array "
+         "script templates compiles as a Python program. The contracts the script relies on count for C16 too: Crop.missing_results / calc_progress / "
+         "_sync_info_from_disk / load_info (batch count and missing ids as on disk now), Crop.grow (every listed batch handed to grow once, in order) and grow (the "
+         "given or the sown function evaluated on the batch's cases in order, only that batch's result written). BOUNDED: replay/C16.py executes every generated script with bash and stub scheduler variables, once per array "
          "index, and the xyzpy-grow command line, and checks that exactly the intended batches were grown, each once (quick tier).",
          "assumed: what bash / the scheduler / the interpreter do with the text (bounded replay only); task variables count from the header's range start; the skipped "
          "prefix validated scheduler and mode; the PBS single-task rewrite and xyzpy_grow_cli.main are bounded only"),
